@@ -332,7 +332,7 @@ Definition exit_cond (c : cfg) (s : st) (top : frame) : bool :=
   let g := f_flags top in
   let time_filter := if ftime f =? NO_TIME then threshold c else ftime f in
   let dur := (f_end top + 18446744073709551616 - f_start top) mod 18446744073709551616 in
-  ((time_filter <? dur) && (negb (has_caller c) || fcaller g)) || written g || ftrace g.
+  ((time_filter <=? dur) && (negb (has_caller c) || fcaller g)) || written g || ftrace g.
 
 (* for (i = 0, k = 0; i < nr_events; i++) if (event[i].idx < mtdp->idx - 1) k = i + 1;  nr_events = k;
    (mtdp->idx still counts the exiting function: midx below is its own index) *)
@@ -430,7 +430,7 @@ Fixpoint xrecs (C : xcfg) (thr lim d : N) (k : xcall) : list item :=
       if lim <=? d then []
       else
         let ks := flat_map (xrecs C thr lim (d + 1)) kids in
-        if (thr <? t1 - t0) || negb (is_nil ks)
+        if (thr <=? t1 - t0) || negb (is_nil ks)
         then IR {| r_time := t0; r_type := ENTRY; r_depth := d; r_addr := a |} :: map IE (reads C a t0 o0)
              ++ ks ++ map IE (diffs C a t1 o0 o1)
              ++ [IR {| r_time := t1; r_type := EXIT; r_depth := d; r_addr := a |}]
